@@ -444,7 +444,7 @@ func (r *BinaryReader) ReadInt16() int16 {
 
 // ReadInt24 reads a int24 into an int32.
 func (r *BinaryReader) ReadInt24() int32 {
-	return int32(r.ReadUint24())
+	return int32(r.ReadUint24()<<8) >> 8 // sign extend
 }
 
 // ReadInt32 reads a int32.
